@@ -28,12 +28,12 @@ func VerifLemma_C16C_RootToExcludes() {
 	var roots, excludes []string
 	for i := 0; i < verifParam("ROOTS"); i++ {
 		if verifNondetBool() {
-			roots = append(roots, vRelPath(depth, n))
+			roots = append(roots, vRelPathPrintable(depth, n))
 		}
 	}
 	for i := 0; i < verifParam("EXCL"); i++ {
 		if verifNondetBool() {
-			excludes = append(excludes, vRelPath(depth+1, n))
+			excludes = append(excludes, vRelPathPrintable(depth+1, n))
 		}
 	}
 	got, err := getRootToExcludes(roots, excludes)
